@@ -90,6 +90,9 @@ def cases(tier, seed):
                         if iname == "offset" and dt == "float32":
                             continue     # 16 float32 ulps wide: the nodes cannot be told apart from the limits
                         out.append({"n": n, "interval": iname, "form": form, "out": o, "dtype": dt})
+                        if dt == "float64" and n in (2, 5, 16) and form == forms[0]:
+                            for bn in (1, 2):
+                                out.append({"n": n, "interval": iname, "form": form, "out": o, "dtype": dt, "bckn": bn})
     for outer in ("unit", "ninf_inf", "0_inf", "1_inf", "inf_0"):
         for inner in ("unit", "ninf_inf", "0_inf", "ninf_0"):
             for n in ((5, 16) if tier == "quick" else (2, 5, 16, 40)):
@@ -417,7 +420,11 @@ def run_case(cfg):
         flog.append((qc.xval(xarg), [float(c) for c in comps]))
         return _assemble(comps, layout, is_tuple)
 
-    o = call(quad, f, mk(kl, xl0), mk(ku, xu0), method="leggauss", n=n)
+    kwb = {}
+    if cfg.get("bckn"):
+        # options of the backward pass naming another number of nodes: the forward rule is the n-point rule
+        kwb["bck_options"] = {"n": (n + 3 if cfg["bckn"] == 1 else max(1, n - 1))}
+    o = call(quad, f, mk(kl, xl0), mk(ku, xu0), method="leggauss", n=n, **kwb)
     nexec += 1
     if o.exc is not None:
         viol.append(V("exception:" + o_sig(o.exc), {"phase": "integrand"}, phase="integrand"))
